@@ -218,6 +218,30 @@ Proof.
   rewrite (drain_not_stuck St); [reflexivity|]. cbn [with_buf buf]. lia.
 Qed.
 
+(* framers that never answer with reply-and-return: the hypothesis of seg_independent is always met *)
+Definition never_reply : Prop := forall b f n, parse b <> PErrReply f n.
+
+Lemma drain_no_reply (Nr : never_reply) : forall fuel s, no_reply s -> no_reply (drain fuel s).
+Proof.
+  assert (Happ : forall (o : list event) e, (forall f, e <> EReply f) ->
+                 (~ exists f, In (EReply f) o) -> ~ exists f, In (EReply f) (o ++ [e])).
+  { intros o e He Ho [g Hg]. apply in_app_or in Hg. destruct Hg as [Hg|[Hg|[]]].
+    - apply Ho. now exists g.
+    - eapply He; eauto. }
+  induction fuel as [|k IH]; intros s H; cbn [drain]; destruct (buf s) as [|x r] eqn:Eb; auto.
+  destruct (parse (x :: r)) as [f n| | |f n] eqn:Ep; auto.
+  - apply IH. unfold no_reply, has_reply. cbn [out]. apply Happ; [discriminate|exact H].
+  - unfold no_reply, has_reply. cbn [out]. apply Happ; [discriminate|exact H].
+  - exfalso. eapply Nr; eauto.
+Qed.
+
+Theorem seg_independent_nr (St : stable) (Nr : never_reply) : forall chunks,
+  fold_left feed chunks init = feed init (concat chunks).
+Proof.
+  intros chunks. apply (seg_independent St). unfold feed. cbn [dead init].
+  apply (drain_no_reply Nr). intros [f []].
+Qed.
+
 (* ---- streams of complete frames followed by an incomplete tail ------------------------- *)
 Definition frame_bytes_ok (fb : F * bytes) : Prop := parse (snd fb) = POk (fst fb) (length (snd fb)).
 Definition tail_ok (t : bytes) : Prop := t = [] \/ parse t = PNeedMore.
